@@ -530,6 +530,10 @@ pub fn run_program(lines: &[String], ctx: &mut Ctx) {
             "sdi" => sdi::exec_case(&id, body, ctx),
             "un" => un::exec_case(&id, body, ctx),
             "sun" => sun::exec_case(&id, body, ctx),
+            "wdi" => { crate::exec_wk::wdi::exec_case(&id, body, ctx); true }
+            "wsdi" => { crate::exec_wk::wsdi::exec_case(&id, body, ctx); true }
+            "wun" => { crate::exec_wk::wun::exec_case(&id, body, ctx); true }
+            "wsun" => { crate::exec_wk::wsun::exec_case(&id, body, ctx); true }
             x => panic!("unknown flavour {x}"),
         };
         i = j;
